@@ -269,6 +269,9 @@ impl Check for C11 {
             let holes = if rng.chance(0.6) { 1 + rng.below(3) } else { 0 };
             let mut cfg = GenCfg::swarm(rng, holes);
             cfg.size = 4 + rng.below(25);
+            // victims must not consume the host's random/clock streams or bump console counters:
+            // those are effects on state the host (or the console) owns, not leaks of a dead run
+            cfg.f_timeish = false;
             let variant = if holes == 0 {
                 HoleVariant::Sync
             } else if rng.chance(0.5) {
